@@ -6,7 +6,8 @@
      an IfElse stays assigned.  A name that holds nothing (never assigned, or only declared by
      LateInitDeclaration) cannot be read: FStuck.
    * IntLiteral z is `VInt z`, Int31Zero is `VInt 0`, StringName is the string it names.
-   * the condition of an IfElse must be 0 or 1; Not is defined on 0 and 1; Binary on two ints (rt_binop, traps as
+   * the condition of an IfElse: 0 is false, anything else is true (htruth); a ConditionalDestructure needs an enum
+     value with at least as many payload fields as bindings; Not is defined on 0 and 1; Binary on two ints (rt_binop, traps as
      in SrcSem); IndexedAccess on a struct value that has the field.
    * Call of a function name: the argument values in order, then SrcSem.call_named (world / init / concat); Call of
      a variable: it must hold a function value, whose context is passed first (SrcSem.apply_value).  The returned
@@ -34,6 +35,23 @@ Fixpoint hevals (s : name -> option value) (es : list hexpr) : option (list valu
       match heval s e, hevals s t with
       | Some v, Some vs => Some (v :: vs)
       | _, _ => None
+      end
+  end.
+
+(* the condition of an IfElse: zero is false, anything else is true (the `if` of the target; C01pat/Sem.v `truth` on
+   ints).  Lenient on purpose: the statements of patterns are C01pat's, and their theorem is carried over to this
+   semantics by a simulation that holds for every statement list only with this reading (ProofsPat.v). *)
+Definition htruth (a : value) : bool := match a with VInt 0 => false | _ => true end.
+
+(* the bindings of a ConditionalDestructure: the i-th binding takes the i-th payload field *)
+Fixpoint bind_payload (bs : list (option name)) (vs : list value) (s : name -> option value)
+  : option (name -> option value) :=
+  match bs with
+  | [] => Some s
+  | b :: bt =>
+      match vs with
+      | [] => None
+      | v :: vt => bind_payload bt vt (match b with Some x => upd s x (Some v) | None => s end)
       end
   end.
 
@@ -101,12 +119,20 @@ Section Exec.
     | HIf c s1 s2 fas =>
         match heval s c with
         | Some cv =>
-            match truth cv with
-            | Some true => finish true fas (exec_list exec s1 s tr)
-            | Some false => finish false fas (exec_list exec s2 s tr)
-            | None => HFail FStuck
-            end
+            if htruth cv then finish true fas (exec_list exec s1 s tr)
+            else finish false fas (exec_list exec s2 s tr)
         | None => HFail FStuck
+        end
+    | HDestr e tag bs s1 s2 fas =>
+        match heval s e with
+        | Some (VVariant t vs) =>
+            if Nat.eqb t tag then
+              match bind_payload bs vs s with
+              | Some s1' => finish true fas (exec_list exec s1 s1' tr)
+              | None => HFail FStuck
+              end
+            else finish false fas (exec_list exec s2 s tr)
+        | _ => HFail FStuck
         end
     | HIndex x e i =>
         match heval s e with
